@@ -84,3 +84,28 @@ func viewInstrs(fn *ssa.Function) []ssa.Instruction {
 	eachInstr(fn, func(in ssa.Instruction) { out = append(out, in) })
 	return out
 }
+
+// idxRe matches the canonical rendering of a loop index: the index of a
+// `range` loop ("(φtN + 1)") or of a counted `for i := 0; i < n; i++` loop ("φtN").
+const idxRe = `(?:\(φ(?:[\w$]+·)?t\d+ \+ 1\)|φ(?:[\w$]+·)?t\d+)`
+
+// retIsNil: the returned value is the nil constant on this abstract path
+// (directly, or as the result an inlined helper returned).
+func retIsNil(ex *Explorer, st *State, v ssa.Value) bool {
+	if isNilConst(ex.Resolve(st, v)) || ex.Canon(st, v).S == "nil" {
+		return true
+	}
+	n, _ := ex.NilState(st, v)
+	return n == 1
+}
+
+// retBool: "true"/"false" when the returned boolean is a constant on this path, else "".
+func retBool(ex *Explorer, st *State, v ssa.Value) string {
+	if k, ok := ex.Resolve(st, v).(*ssa.Const); ok {
+		return constStr(k)
+	}
+	if s := ex.Canon(st, v).S; s == "true" || s == "false" {
+		return s
+	}
+	return ""
+}
